@@ -5,9 +5,10 @@
    length, which is a standard query (QR=0, RCODE=0, Z=0, at least one question) and whose questions pass the
    rule table [filter_spec]" - [filter_spec] is written from the option documentation, the matcher's loop with its
    early returns is proved equal to it.  Wire parsing is delegated (dns.Msg.Unpack is a universally quantified function).
-   Two deviations of today's code from the wire definition are outside these theorems because they sit in the
-   delegated part and are recorded findings: names are compared case-sensitively, and the canonical length is the
-   uncompressed one (compressed queries are rejected).
+   Question names are compared case-insensitively on ASCII letters (RFC 4343): the matcher lower-cases the name
+   before the rules see it (literal name and name_regexp alike), and so does [question_spec].
+   One deviation of today's code from the wire definition is outside these theorems because it sits in the
+   delegated part and is a recorded finding: the canonical length is the uncompressed one (compressed queries are rejected).
 
    OpenVPN: framing + opcode + key id + length gates are given as an equation over a complete message (TCP and
    UDP), and the three attempts on a V2 body / the attempt on a V3 body are characterised by "some enabled mode
@@ -24,6 +25,9 @@ Import ListNotations.
 Theorem C14_dns_rule_table_eq_spec : forall re c qs, has_rules c = true ->
   questions_loop re c qs = forallb (question_spec re c) qs.
 Proof. exact questions_loop_spec. Qed.
+Theorem C14_dns_rules_case_insensitive : forall re c n1 n2 cl ty, lower_ascii n1 = lower_ascii n2 ->
+  question_spec re c {| q_name := n1; q_class := cl; q_type := ty |} = question_spec re c {| q_name := n2; q_class := cl; q_type := ty |}.
+Proof. exact question_spec_case_insensitive. Qed.
 Theorem C14_dns_tcp_match_iff_ref : forall unpack re c msg lb,
   length lb = 2%nat -> be_N lb = N.of_nat (length msg) ->
   (dns_match unpack re c true (lb ++ msg) = Yes <-> (dns_hdr <= length msg <= dns_max_msg)%nat /\ dns_ref unpack re c msg).
@@ -90,10 +94,14 @@ Example C14_ovpn_dns_nonvacuous :
   map (fun n => filter_spec re (c true true) [qn [n]]) [x61; x62; x63; x64] = [true; true; false; false] /\
   map (fun n => questions_loop re (c true true) [qn [n]]) [x61; x62; x63; x64] = [true; true; false; false] /\
   dns_match (fun _ => Some {| d_len := 14; d_questions := [qn [x61]]; d_response := false; d_rcode := 0; d_zero := false |}) re (c true false) false (repeat x00 14) = Yes /\
-  dns_match (fun _ => Some {| d_len := 14; d_questions := [qn [x61]]; d_response := true; d_rcode := 0; d_zero := false |}) re (c true false) false (repeat x00 14) = No.
+  dns_match (fun _ => Some {| d_len := 14; d_questions := [qn [x61]]; d_response := true; d_rcode := 0; d_zero := false |}) re (c true false) false (repeat x00 14) = No /\
+  (* upper-case A, B, C, D get the same answers: a deny rule cannot be bypassed by changing case *)
+  map (fun n => questions_loop re (c true true) [qn [n]]) [x41; x42; x43; x44] = [true; true; false; false] /\
+  lower_ascii [x42; x4c; x6f; x2e; x5a; x40; x5b] = [x62; x6c; x6f; x2e; x7a; x40; x5b].
 Proof. vm_compute. repeat split. Qed.
 
 Print Assumptions C14_dns_rule_table_eq_spec.
+Print Assumptions C14_dns_rules_case_insensitive.
 Print Assumptions C14_dns_tcp_match_iff_ref.
 Print Assumptions C14_dns_udp_match_iff_ref.
 Print Assumptions C14_openvpn_tcp_decision_partial.
